@@ -690,6 +690,27 @@ func walkRm(p *Program, obs *obSet, k *ssa.Function) {
 					hasPrefix = true
 				}
 			})
+			// a temporary DIRECTORY left by a crash is never empty (it holds the snapshot's data and metadata files):
+			// os.Remove fails on it, so unless the path is known not to be a directory the removal must be recursive
+			if calleeName(c.Common()) == "os.Remove" {
+				notDir := false
+				v.Conds(func(fr *sframe, cond ssa.Value, truth bool) {
+					ic, ok := cond.(*ssa.Call)
+					if ok && ic.Common().IsInvoke() && ic.Common().Method.Name() == "IsDir" && resolve(fr, ic.Common().Value) == ssa.Value(infoParam) && !truth {
+						notDir = true
+					}
+				})
+				kr := "a temporary directory is removed with its contents: " + siteKey(v.Fr, c)
+				if notDir {
+					obs.ok(kr, p.InstrPos(c), "os.Remove is used only where the visited entry is known not to be a directory")
+				} else {
+					v.Note("%s: os.Remove", p.InstrPos(c))
+					obs.fail(kr, p.InstrPos(c), "the visited path is removed with os.Remove although it may be a directory: the temporary snapshot directory a crash leaves behind holds its data and metadata files, os.Remove fails on a non-empty directory, "+
+						"and the constructor that calls RemoveTmpFiles fails on every start after such a crash", v.Path())
+				}
+			} else {
+				obs.ok("a temporary directory is removed with its contents: "+siteKey(v.Fr, c), p.InstrPos(c), "the removal is recursive (os.RemoveAll)")
+			}
 			kp := "only entries whose name has the temporary prefix are removed: " + siteKey(v.Fr, c)
 			if hasPrefix {
 				obs.ok(kp, p.InstrPos(c), "the removal is reached only where strings.HasPrefix(info.Name(), \"tmp…\") holds")
